@@ -47,6 +47,8 @@ func init() {
 			for i, sc := range []cliScenario{
 				{Opts: cliOpts{MsgSize: []int{3000}}, Setup: []cliEv{{K: "start", I: 0}}, Threads: [][]cliEv{nil, {tickAfter, tickAfter}, {{K: "overwrite", I: 0}}, {{K: "resp", I: 0}}}, Epilogue: "drain+close"},
 				{Opts: cliOpts{MsgSize: []int{3000}}, Setup: []cliEv{{K: "start", I: 0}}, Threads: [][]cliEv{nil, {tickAfter, tickAfter, tickAfter}, {{K: "setrto", Arg: 1}, {K: "start", I: 1}}}, Epilogue: "drain+close"},
+				// two clients re-transmitting at the same time (they share the package-level scratch pool)
+				{TwoClients: true, Opts: cliOpts{MsgSize: []int{3000}}, Setup: []cliEv{{K: "start", I: 0}, {K: "start2", I: 1}}, Threads: [][]cliEv{nil, {tickAfter, tickAfter}, {{K: "tick2"}, {K: "tick2"}}}, Epilogue: "drain+close"},
 			} {
 				cliExplore(c, "C11", sc, 2, true, fmt.Sprintf("S%d", i+1))
 			}
@@ -69,11 +71,16 @@ func init() {
 				{K: "resp", I: 0}, {K: "resp", I: 1}, {K: "resp", I: 2},
 				{K: "resp", I: 0, Arg: 1}, {K: "resp", I: 1, Arg: 2}, {K: "unknown"}, {K: "unknown", Arg: 1},
 				{K: "garbage", Arg: 0}, {K: "garbage", Arg: 1}, {K: "garbage", Arg: 2}, {K: "garbage", Arg: 3}, {K: "garbage", Arg: 4},
-				{K: "resp", I: 2, Arg: 3}, {K: "tick", Arg: 1}, {K: "failagent"},
+				{K: "resp", I: 2, Arg: 3}, {K: "tick", Arg: 1}, {K: "failagent"}, {K: "readerr", Arg: 3}, {K: "readerr", Arg: 0},
 			}
 			eps := []string{"drain+close"}
-			cliHistories(c, "C12", cliOpts{Fallback: true, PoolFanout: true}, alpha, depth, eps, "Hfb")
-			cliHistories(c, "C12", cliOpts{PoolFanout: true}, alpha, depth-1, eps, "H")
+			cliHistories(c, "C12", cliOpts{Fallback: true, PoolFanout: true}, alpha, depth-1, eps, "Hfb")
+			// one level deeper over the events that matter most for routing
+			core := []cliEv{{K: "start", I: 0}, {K: "start", I: 1}, {K: "resp", I: 0}, {K: "resp", I: 0, Arg: 1}, {K: "resp", I: 1, Arg: 2}, {K: "resp", I: 0, Arg: 3},
+				{K: "unknown"}, {K: "garbage", Arg: 4}, {K: "readerr", Arg: 3}, {K: "tick", Arg: 1}}
+			cliHistories(c, "C12", cliOpts{Fallback: true, PoolFanout: true}, core, depth, eps, "Hcore")
+			cliHistories(c, "C12", cliOpts{PoolFanout: true}, alpha, depth-2, eps, "H")
+			cliHistories(c, "C12", cliOpts{PoolFanout: true}, core, depth-1, eps, "Hcore-nofb")
 			small := []cliEv{{K: "start", I: 0}, {K: "start", I: 1}, {K: "resp", I: 0}, {K: "resp", I: 1, Arg: 2}, {K: "unknown"}, {K: "tick", Arg: 1}, {K: "failagent"}, {K: "failwrite"}}
 			cliHistoriesFrom(c, "C12", cliOpts{Fallback: true, PoolFanout: true}, []cliEv{{K: "start", I: 0}, {K: "resp", I: 0}}, small, depth, eps, "Hafter")
 			ev := func(k string, i int) cliEv { return cliEv{K: k, I: i} }
@@ -86,6 +93,7 @@ func init() {
 				{Setup: []cliEv{ev("start", 0), {K: "failwrite"}}, Threads: [][]cliEv{nil, {tickAfter}, {ev("resp", 0)}}, Probe: true, Epilogue: "drain+close", Opts: cliOpts{PoolFanout: true, Fallback: true}},
 				{Threads: [][]cliEv{nil, {ev("do", 0)}, {ev("do", 1)}, {ev("resp", 1), ev("resp", 0)}}, Epilogue: "drain+close", Opts: cliOpts{PoolFanout: true, Fallback: true}},
 				{Threads: [][]cliEv{nil, {ev("start", 0), ev("start", 1)}, {ev("start", 2)}, {ev("resp", 2), ev("resp", 0), ev("resp", 1), ev("resp", 0)}}, Epilogue: "drain+close", Opts: cliOpts{Fallback: true}},
+				{Setup: []cliEv{ev("start", 0), {K: "failwrite"}}, Threads: [][]cliEv{nil, {tickAfter}, {ev("resp", 0)}, {ev("start", 1), ev("resp", 1)}}, Probe: true, Epilogue: "drain+close", Opts: cliOpts{PoolFanout: true, Fallback: true}},
 			} {
 				cliExplore(c, "C12", sc, pb, true, fmt.Sprintf("S%d", i+1))
 			}
@@ -123,7 +131,7 @@ func init() {
 			}
 			alpha := []cliEv{
 				{K: "start", I: 0}, {K: "do", I: 1}, {K: "resp", I: 0}, {K: "resp", I: 1},
-				{K: "tick", Arg: 1}, {K: "failwrite"}, {K: "close"},
+				{K: "tick", Arg: 1}, {K: "failwrite"}, {K: "readerr", Arg: 1}, {K: "readerr", Arg: 3}, {K: "close"},
 			}
 			optSets := []cliOpts{
 				{}, {NoConnClose: true}, {Fallback: true}, {NoRetransmit: true}, {ConnCloseErr: true}, {AgentCloseErr: true},
@@ -152,6 +160,8 @@ func init() {
 					{Setup: []cliEv{ev("start", 0)}, Threads: [][]cliEv{nil, {cl}, {ev("resp", 0)}}},
 					{Setup: []cliEv{ev("start", 0)}, Threads: [][]cliEv{nil, {cl}, {tickAfter}}},
 					{Setup: []cliEv{ev("start", 0), ev("start", 1)}, Threads: [][]cliEv{nil, {cl}, {tickAfter}, {ev("resp", 1)}}},
+					{Setup: []cliEv{ev("start", 0)}, Threads: [][]cliEv{nil, {cl}, {ev("do", 1)}}},
+					{Setup: []cliEv{{K: "readerr", Arg: 1}}, Threads: [][]cliEv{nil, {cl}, {ev("start", 0)}}},
 				} {
 					sc.Opts = o
 					sc.Epilogue = "close"
